@@ -132,6 +132,7 @@ func runCheck(repo, verif, prop, tier string, workers int, verbose bool) int {
 	}
 	eng.specs = loadSpecs(repo, filepath.Join(verif, "contracts-lib"))
 	eng.verifDir = verif
+	eng.loadHints(filepath.Join(verif, "hints", "houdini.json"))
 	os.Setenv("VERIF_REPO", repo)
 	timeout := 10
 	if tier == "thorough" {
@@ -273,6 +274,11 @@ func runCheck(repo, verif, prop, tier string, workers int, verbose bool) int {
 	}
 
 	// ---- evidence
+	if os.Getenv("GOVC_WRITE_HINTS") != "" && exit == 0 {
+		if err := eng.saveHints(filepath.Join(verif, "hints", "houdini.json")); err != nil {
+			fmt.Fprintln(os.Stderr, "cannot write hints:", err)
+		}
+	}
 	writeEvidence(verif, prop, tier, seed, ps, results, all, knownHit, violations, bounded, time.Since(t0).Seconds(), eng)
 	if verbose {
 		fmt.Print(summarize(results))
@@ -300,8 +306,16 @@ func writeEvidence(verif, prop, tier string, seed int, ps *PropSpec, results []*
 	var samples []interface{}
 	var slow []interface{}
 	reach := 0
+	retSites, retUnreach := 0, []string{}
 	for _, o := range all {
 		solverTime += o.Res.Time
+		if o.Info {
+			retSites++
+			if o.Res.Status == "unsat" {
+				retUnreach = append(retUnreach, o.Unit+" "+o.Pos)
+			}
+			continue
+		}
 		if o.IsSat {
 			reach++
 			continue
@@ -379,7 +393,7 @@ func writeEvidence(verif, prop, tier string, seed int, ps *PropSpec, results []*
 			"samples":      samples,
 			"by_kind":      byKind, "by_solver": bySolver, "solver_time_s": solverTime,
 			"functions_under_contract": fnsContract, "functions_inlined": fnsInlined, "functions_outside_subset": fnsOutside,
-			"loops": loops, "vacuity_guards": reach, "known_findings_hit": knownHit, "bounded": bounded,
+			"loops": loops, "vacuity_guards": reach, "return_sites": retSites, "return_sites_unreachable": retUnreach, "known_findings_hit": knownHit, "bounded": bounded,
 			"slow_obligations": slow, "houdini_side_queries": eng.sideQueries,
 			"contract_files": eng.specs.Files,
 			"explanation":    "obligations are generated from /repo's current SSA and the //@ contracts; discharged = solver answered unsat for the negated obligation; obligations listed under known_findings_hit are excluded from both counts",
